@@ -108,7 +108,92 @@ class Extract:
             top = self.full[0][1]
             iv = {"Le": [(0, c)], "Lt": [(0, c - 1)], "Ge": [(c, top)], "Gt": [(c + 1, top)], "Eq": [(c, c)], "Ne": [(0, c - 1), (c + 1, top)]}[op]
             return _iand(self.full, [(a, b) for a, b in iv if a <= b])
+        if n[0] == "mcall" and n[2] == "contains" and str(n[3]).startswith("std::ops::Range") and len(n[5]) == 1 and self.is_x(n[5][0]):
+            iv = self.range_expr(n[4])
+            if iv is not None:
+                return _iand(self.full, iv)
         raise NotPiecewise("condition shape %s" % n[0])
+
+    def range_expr(self, r):
+        """interval list denoted by a range expression a..b, a..=b, a.., ..b, ..=b with constant ends"""
+        r = H.strip(r)
+        top = self.full[0][1]
+        if H.is_node(r) and r[0] == "struct" and isinstance(r[2], list) and str(r[2][-1]).startswith("std::ops::Range"):
+            kind = str(r[2][-1]).rsplit("::", 1)[-1]
+            fs = {f[0]: self.const(f[1]) for f in r[3]}
+            if any(v is None for v in fs.values()):
+                raise NotPiecewise("range with a non-constant end")
+            if kind == "Range":
+                lo, hi = fs["start"], fs["end"] - 1
+            elif kind == "RangeFrom":
+                lo, hi = fs["start"], top
+            elif kind == "RangeTo":
+                lo, hi = 0, fs["end"] - 1
+            elif kind == "RangeToInclusive":
+                lo, hi = 0, fs["end"]
+            else:
+                return None
+            return [(lo, hi)] if lo <= hi else []
+        if H.is_node(r) and r[0] == "call" and "RangeInclusive" in str(r[2]) and str(r[2]).endswith("::new") and len(r[4]) == 2:
+            lo, hi = self.const(r[4][0]), self.const(r[4][1])
+            if lo is None or hi is None:
+                raise NotPiecewise("range with a non-constant end")
+            return [(lo, hi)] if lo <= hi else []
+        return None
+
+    def pat_iv(self, p):
+        """interval list matched by a literal / range / or / wildcard pattern"""
+        while p and p[0] == "pref":
+            p = p[1]
+        top = self.full[0][1]
+        if not p:
+            raise NotPiecewise("pattern")
+        if p[0] == "wild" or (p[0] == "bind" and p[3] is None):
+            return list(self.full)
+        if p[0] == "por":
+            out = []
+            for q in p[1]:
+                iv = self.pat_iv(q)
+                out = out + _isub(iv, out)
+            return out
+        def pconst(q):
+            if q is None:
+                return None
+            if q[0] == "plit" and q[1][0] == "int" and not q[2]:
+                return int(q[1][1])
+            if q[0] == "ppath" and q[1][0] == "def":
+                return self.const(["path", 0, q[1], None])
+            raise NotPiecewise("pattern constant")
+        if p[0] == "plit":
+            c = pconst(p)
+            return _iand(self.full, [(c, c)])
+        if p[0] == "ppath":
+            c = pconst(p)
+            if c is None:
+                raise NotPiecewise("pattern constant")
+            return _iand(self.full, [(c, c)])
+        if p[0] == "prange":
+            lo = pconst(p[1]) if p[1] is not None else 0
+            hi = pconst(p[2]) if p[2] is not None else top
+            if lo is None or hi is None:
+                raise NotPiecewise("pattern constant")
+            if p[2] is not None and "Excluded" in p[3]:
+                hi -= 1
+            return _iand(self.full, [(lo, hi)]) if lo <= hi else []
+        raise NotPiecewise("pattern shape %s" % p[0])
+
+    def walk_match(self, n, dom, walker):
+        if not self.is_x(n[2]):
+            raise NotPiecewise("match not on the parameter")
+        rest = []
+        for arm in n[3]:
+            if arm[1] is not None:
+                raise NotPiecewise("match guard")
+            iv = self.pat_iv(arm[0])
+            here = _iand(dom, iv)
+            dom = _isub(dom, iv)
+            rest = rest + walker(arm[2], here)
+        return rest + dom
 
     def result(self, n):
         n = H.strip(n)
@@ -165,6 +250,8 @@ class Extract:
             else:
                 rest = rest + e
             return rest
+        if H.is_node(n) and n[0] == "match":
+            return self.walk_match(n, dom, self.walk)
         r = self.result(n)
         for lo, hi in dom:
             self.pieces.append((lo, hi, r))
@@ -187,6 +274,8 @@ class Extract:
             if n[3] is not None:
                 dom = self.walk_stmt(n[3], dom)
             return dom
+        if H.is_node(n) and n[0] == "match":
+            return self.walk_match(n, dom, self.walk_stmt)
         if H.is_node(n) and n[0] == "ret":
             r = self.result(n[2])
             for lo, hi in dom:
